@@ -107,13 +107,20 @@ StartBudgetOK(w) ==
 DoneStatuses(t, sk) == {execs[i].s : i \in {j \in (IF t \in Stateless THEN {x \in ExecIdx : execs[x].t = t} ELSE ExecsOf(t, sk)) : execs[j].s # "RUN"}}
 \* for an object creation the decision is taken before the pre-step: the status rules are evaluated there (atPre),
 \* the main step only re-checks the budget
+PrevIdx(t) == {i \in 1..Len(T.prev) : T.prev[i].t = t}
+PrevStatuses(t) == {T.prev[i].s : i \in PrevIdx(t)}
+\* an execution forced by a missing state (the first examination did not find the produced states) is not a retry
+ForcedByMissingState(t, sk) == <<t, sk, FALSE>> \in scans
 RerunRuleOK(w, statusrules) ==
                   LET sk == ScopeKey(w)
-                      done == DoneStatuses(E.t, sk) \ {"LOST"}
-                  IN /\ Note(T.norerunrule \/ ~statusrules \/ done = {} \/ T.maxtries > 1, "C10", <<"tries-retried-without-retries", E.t, sk, done>>)
-                     /\ Note(T.norerunrule \/ ~statusrules \/ done \subseteq SeqToSet(T.rerun), "C10", <<"tries-continued-outside-rerun-set", E.t, sk, done>>)
-                     /\ Note(T.norerunrule \/ ~statusrules \/ done \cap SeqToSet(T.stop) = {}, "C10", <<"tries-continued-after-stop-status", E.t, sk, done>>)
-                     /\ Note(T.norerunrule \/ Cardinality(IF E.t \in Stateless THEN {x \in ExecIdx : execs[x].t = E.t} ELSE ExecsOf(E.t, sk)) < Budget,
+                      done == (DoneStatuses(E.t, sk) \ {"LOST"}) \cup PrevStatuses(E.t)
+                      \* replaying: while no execution of this run has ended, a missing state decides, not the previous results
+                      forced == PrevIdx(E.t) # {} /\ ForcedByMissingState(E.t, sk) /\ DoneStatuses(E.t, sk) = {}
+                  IN /\ Note(T.norerunrule \/ ~statusrules \/ forced \/ done = {} \/ T.maxtries > 1, "C10", <<"tries-retried-without-retries", E.t, sk, done>>)
+                     /\ Note(T.norerunrule \/ ~statusrules \/ forced \/ done \subseteq SeqToSet(T.rerun), "C10", <<"tries-continued-outside-rerun-set", E.t, sk, done>>)
+                     /\ Note(T.norerunrule \/ ~statusrules \/ forced \/ done \cap SeqToSet(T.stop) = {}, "C10", <<"tries-continued-after-stop-status", E.t, sk, done>>)
+                     /\ Note(T.norerunrule \/ forced \/
+                             Cardinality(IF E.t \in Stateless THEN {x \in ExecIdx : execs[x].t = E.t} ELSE ExecsOf(E.t, sk)) + Cardinality(PrevIdx(E.t)) < Budget,
                              "C10", <<"tries-over-budget", E.t, sk, Budget>>)
 UidFresh(w) == Note(~\E i \in ExecIdx : execs[i].t = E.t /\ execs[i].w = w /\ execs[i].u = E.u, "C10", <<"uid-reused", E.t, w, E.u>>)
 
@@ -197,8 +204,20 @@ ShouldContinue(q) == /\ Len(q) < Budget /\ T.maxtries > 1
                      /\ SeqToSet(q) \subseteq SeqToSet(T.rerun)
                      /\ SeqToSet(q) \cap SeqToSet(T.stop) = {}
 \* at the end of a complete run nothing that should have been tried again is left
-TriesOK(t, sk) == LET q == StatusSeq(t, sk) IN q = <<>> \/ ~ShouldContinue(q)
 ScopeKeys == {ScopeKey(w) : w \in Workers}
+PrevSeq(t) == [k \in 1..Cardinality(PrevIdx(t)) |-> T.prev[CHOOSE i \in PrevIdx(t) : Cardinality({j \in PrevIdx(t) : j <= i}) = k].s]
+\* (an object creation whose pre-step failed could not be executed again)
+TriesOK(t, sk) == LET q == PrevSeq(t) \o StatusSeq(t, sk)
+                  IN \/ StatusSeq(t, sk) = <<>> \/ ~ShouldContinue(q)
+                     \/ (t \in ObjRoots /\ \E i \in 1..Len(pres) : pres[i].t = t /\ pres[i].s \notin OKStatus)
+\* replay: a test whose previous results call for another try (all in the rerun set, none in the stop set, tries left) is
+\* executed; one with an acceptable (or stopping) previous result is not, unless a state it produces is missing
+PrevCallsForRerun(t) == /\ PrevStatuses(t) \subseteq SeqToSet(T.rerun)
+                        /\ PrevStatuses(t) \cap SeqToSet(T.stop) = {}
+                        /\ Cardinality(PrevIdx(t)) < Budget /\ T.maxtries > 1
+ReplayOK(t) == LET ran == \E i \in ExecIdx : execs[i].t = t
+               IN /\ (PrevIdx(t) # {} /\ ~PrevCallsForRerun(t) /\ ran) => \E sk \in ScopeKeys : ForcedByMissingState(t, sk)
+                  /\ (PrevIdx(t) # {} /\ PrevCallsForRerun(t) /\ t \in SeqToSet(T.mustrun)) => ran
 \* the run is reported successful exactly when every executed test (grouped as the runner reports it: per worker-specific
 \* name, creation pre-steps separately) has at least one acceptable result; lost results are not reported at all
 Acceptable == {"PASS", "WARN", "SKIP", "CANCEL"}
@@ -219,11 +238,12 @@ Finish == /\ tr <= Len(Traces) /\ l = Len(T.events) + 1
           /\ Note(T.outcome # "done" \/ \A i \in ExecIdx : execs[i].s # "RUN", "C02", <<"pending-status-recorded">>)
           /\ \A k \in 1..Len(T.final) : Note(T.outcome # "done" \/ T.lost \/ "UNKNOWN" \notin SeqToSet(T.final[k].res), "C02",
                                                 <<"unknown-recorded", T.final[k].t, T.final[k].w>>)
-          /\ \A t \in SeqToSet(T.mustrun) : Note(T.outcome # "done" \/ T.dry \/ (\E i \in ExecIdx : execs[i].t = t)
+          /\ \A t \in SeqToSet(T.mustrun) : Note(T.outcome # "done" \/ T.dry \/ (\E i \in ExecIdx : execs[i].t = t) \/ (PrevIdx(t) # {} /\ ~PrevCallsForRerun(t))
                                                      \/ (\E sk \in ScopeKeys : <<t, sk, TRUE>> \in scans), "C02", <<"never-executed", t>>)
           /\ \A t \in Tests : \A sk \in (IF t \in Stateless THEN {"all"} ELSE ScopeKeys) :
                 Note(T.outcome # "done" \/ T.norerunrule \/ TriesOK(t, sk), "C10", <<"tries-stopped-early", t, sk, StatusSeq(t, sk)>>)
           /\ Note(T.outcome # "done" \/ T.allok = Verdict, "C10", <<"verdict", T.allok, Verdict>>)
+          /\ \A t \in Tests : Note(T.outcome # "done" \/ Len(T.prev) = 0 \/ ReplayOK(t), "C10", <<"replay-rule", t, PrevStatuses(t)>>)
           /\ \A k \in 1..Len(T.final) : Note(T.outcome # "done" \/ Len(T.prev) > 0 \/ OwnResults(T.final[k]), "C10",
                                                 <<"own-result", T.final[k].t, T.final[k].w, T.final[k].res>>)
           /\ IF tr < Len(Traces) THEN Fresh(tr + 1)
